@@ -38,7 +38,7 @@ def main():
         meta = json.load(open(meta_p))
         wt = sys.argv[2] if len(sys.argv) > 2 else None
         if wt is None and os.path.exists(demo):
-            m = re.search(r"^\s*(?:R|WT|ROOT|REPO|G)=\"?([^\s\"]+)", open(demo).read(), re.M)
+            m = re.search(r"^\s*(?:R|T|WT|ROOT|REPO|G|GIVARO_TREE)=\"?([^\s\"]+)", open(demo).read(), re.M)
             wt = m.group(1) if m else None
             if wt and wt.startswith("${"):
                 m = re.search(r":-([^}]+)\}", wt)
@@ -48,7 +48,8 @@ def main():
         if wt is None:
             wt = "/tmp/seed_%s" % prop
         if not os.path.isdir(wt):
-            sh("sh %s/tools/prep_wt.sh %s" % (HERE, wt))
+            base = str(meta.get("base_commit", "HEAD")).split()[0]
+            sh("sh %s/tools/prep_wt.sh %s %s" % (HERE, wt, base))
         conf = {"worktree": wt}
         sh("git checkout -- .", cwd=wt)
         rc, out = sh("git apply %s" % os.path.join(d, "patch.diff"), cwd=wt)
